@@ -101,25 +101,51 @@ func roundScaled(v float64, scale *big.Float) *big.Int {
 // configurations
 
 type brVariant struct {
-	name   string
-	q, p   func(logN int) []uint64
-	pw2    int
-	nttBR  bool
-	nttLWE bool
-	qLWE   func(logN int) uint64
+	name     string
+	q, p     func(logN int) []uint64
+	pw2      int
+	nttBR    bool
+	nttLWE   bool
+	qLWE     func(logN int) []uint64 // LWE modulus chain
+	lweLevel int                     // level of the LWE ciphertext (its modulus is the product of the first lweLevel+1 primes)
+	keyLevel int                     // levelQ of the blind rotation keys; -1: maximum
+}
+
+func one(f func(l int) uint64) func(l int) []uint64 {
+	return func(l int) []uint64 { return []uint64{f(l)} }
 }
 
 var brVariants = []brVariant{
-	{"singleP", func(l int) []uint64 { return []uint64{nttPrime(l, 1<<55, true, 0)} }, func(l int) []uint64 { return []uint64{nttPrime(l, 1<<58, true, 0)} },
-		0, true, true, func(l int) uint64 { return nttPrime(l, 1<<20, true, 0) }},
-	{"32bit", func(l int) []uint64 { return []uint64{nttPrime(l, 1<<28, true, 0)} }, nil,
-		2, true, false, func(l int) uint64 { return 12289 }},
-	{"noP", func(l int) []uint64 { return []uint64{nttPrime(l, 1<<55, true, 0)} }, nil,
-		8, false, true, func(l int) uint64 { return nttPrime(l, 1<<20, true, 0) }},
-	{"multipleP", func(l int) []uint64 { return []uint64{nttPrime(l, 1<<40, true, 0), nttPrime(l, 1<<40, true, 1)} },
-		func(l int) []uint64 { return []uint64{nttPrime(l, 1<<58, true, 0), nttPrime(l, 1<<58, true, 1)} },
-		0, false, false, func(l int) uint64 { return nttPrime(l, 1<<16, false, 0) }},
+	{name: "singleP", q: one(func(l int) uint64 { return nttPrime(l, 1<<55, true, 0) }), p: one(func(l int) uint64 { return nttPrime(l, 1<<58, true, 0) }),
+		pw2: 0, nttBR: true, nttLWE: true, qLWE: one(func(l int) uint64 { return nttPrime(l, 1<<20, true, 0) }), keyLevel: -1},
+	{name: "32bit", q: one(func(l int) uint64 { return nttPrime(l, 1<<28, true, 0) }),
+		pw2: 2, nttBR: true, nttLWE: false, qLWE: one(func(l int) uint64 { return 12289 }), keyLevel: -1},
+	{name: "noP", q: one(func(l int) uint64 { return nttPrime(l, 1<<55, true, 0) }),
+		pw2: 8, nttBR: false, nttLWE: true, qLWE: one(func(l int) uint64 { return nttPrime(l, 1<<20, true, 0) }), keyLevel: -1},
+	{name: "multipleP", q: func(l int) []uint64 { return []uint64{nttPrime(l, 1<<40, true, 0), nttPrime(l, 1<<40, true, 1)} },
+		p:   func(l int) []uint64 { return []uint64{nttPrime(l, 1<<58, true, 0), nttPrime(l, 1<<58, true, 1)} },
+		pw2: 0, nttBR: false, nttLWE: false, qLWE: one(func(l int) uint64 { return nttPrime(l, 1<<16, false, 0) }), keyLevel: -1},
 }
+
+// brDeepVariants: the level an object is used at against the level it was built at.
+//   - lwe2@1 / lwe2@0: LWE parameters with two primes, sample at the top level resp. one level down (modulus q0 only);
+//     singleP-lwe2@1 pairs the two-prime sample with a one-prime blind-rotation ring;
+//   - lowkeys: blind rotation keys generated at levelQ=0 of a two-prime ring (the accumulator lives at the top level,
+//     Evaluate works at the level of the keys); the result is read at the level of the keys.
+var brDeepVariants = func() []brVariant {
+	two := func(l int) []uint64 { return []uint64{nttPrime(l, 1<<16, false, 0), nttPrime(l, 1<<16, false, 1)} }
+	a := brVariants[3]
+	a.name, a.qLWE, a.lweLevel = "multipleP-lwe2@1", two, 1
+	e := brVariants[0] // LWE sample with more moduli than the blind-rotation ring has (isolated: see evaluate())
+	e.name, e.qLWE, e.lweLevel = "singleP-lwe2@1", two, 1
+	b := brVariants[3]
+	b.name, b.qLWE, b.lweLevel = "multipleP-lwe2@0", two, 0
+	c := brVariants[3]
+	c.name, c.keyLevel = "multipleP-lowkeys", 0
+	d := brVariants[0]
+	d.name, d.q, d.keyLevel = "singleP-lowkeys", func(l int) []uint64 { return []uint64{nttPrime(l, 1<<55, true, 0), nttPrime(l, 1<<45, true, 0)} }, 0
+	return []brVariant{a, b, c, d, e}
+}()
 
 type brConfig struct {
 	logNLWE, logNBR int
@@ -134,9 +160,24 @@ func (cf brConfig) name() string {
 		brLeaves(1<<cf.logNLWE, 1<<cf.logNBR)[cf.leaf].name)
 }
 
+func (cf brConfig) keyLevelQ(br rlwe.Parameters) int {
+	if cf.v.keyLevel >= 0 {
+		return cf.v.keyLevel
+	}
+	return br.MaxLevelQ()
+}
+
+func (cf brConfig) evkParams() rlwe.EvaluationKeyParameters {
+	e := rlwe.EvaluationKeyParameters{BaseTwoDecomposition: utils.Pointy(cf.v.pw2)}
+	if cf.v.keyLevel >= 0 {
+		e.LevelQ = utils.Pointy(cf.v.keyLevel)
+	}
+	return e
+}
+
 func (cf brConfig) params() (lwe, br rlwe.Parameters) {
 	lwe = cachedParams(fmt.Sprintf("lwe/%d/%s/h%d", cf.logNLWE, cf.v.name, cf.h), rlwe.ParametersLiteral{
-		LogN: cf.logNLWE, Q: []uint64{cf.v.qLWE(cf.logNLWE)}, NTTFlag: cf.v.nttLWE, Xs: ring.Ternary{H: cf.h}})
+		LogN: cf.logNLWE, Q: cf.v.qLWE(cf.logNLWE), NTTFlag: cf.v.nttLWE, Xs: ring.Ternary{H: cf.h}})
 	lit := rlwe.ParametersLiteral{LogN: cf.logNBR, Q: cf.v.q(cf.logNBR), NTTFlag: cf.v.nttBR}
 	if cf.v.p != nil {
 		lit.P = cf.v.p(cf.logNBR)
@@ -158,8 +199,9 @@ type brLeaf struct {
 }
 
 // leaves: (1) the full slot set over the whole 2N-point circle, three passes so that every grid point meets
-// every function; (2) every subset of size ≤ 2 of a pool of slot indices, holding end points and the
-// neighbourhood of 0.
+// every function; (2) every subset of size ≤ 2 of a pool of slot indices, all triples of the pool and two more
+// triples, holding end points and the neighbourhood of 0. The subsets leaf also replays every call on a fresh
+// evaluator (history insensitivity of the reused one).
 func brLeaves(nLWE, nBR int) []brLeaf {
 	var ls []brLeaf
 	full := make([]int, nLWE)
@@ -197,6 +239,17 @@ func brLeaves(nLWE, nBR int) []brLeaf {
 			subsets = append(subsets, []int{pool[i], pool[j]})
 		}
 	}
+	// size 3: every triple of the pool and two triples away from it; none is a prefix 0,1,2 of the slot range
+	for i := range pool {
+		var t []int
+		for j := range pool {
+			if j != i {
+				t = append(t, pool[j])
+			}
+		}
+		subsets = append(subsets, t)
+	}
+	subsets = append(subsets, []int{2, 3, 7}, []int{5, nLWE/2 + 1, nLWE - 2})
 	l := brLeaf{name: "subsets"}
 	for si, s := range subsets {
 		// rotate the assignment so that the pool slots see different special points in different calls
@@ -300,7 +353,7 @@ func monomialSmall(n, e int) []int64 {
 // with well-formed rows (two of them here; all of them in the brkeys/ scenarios). When they do not, the RGSW
 // keys are rebuilt by the harness so that the evaluator is judged on well-formed keys.
 func brKeys(c *engine.Chooser, cf brConfig, lwe, br rlwe.Parameters, skLWE, skBR *rlwe.SecretKey, sLWE, sBR []int64) (*recKeySet, string) {
-	evkParams := rlwe.EvaluationKeyParameters{BaseTwoDecomposition: utils.Pointy(cf.v.pw2)}
+	evkParams := cf.evkParams()
 	lib := blindrot.GenEvaluationKeyNew(br, skBR, lwe, skLWE, evkParams)
 	Be := big.NewInt(int64(br.NoiseBound()))
 	src := "library"
@@ -320,7 +373,7 @@ func brKeys(c *engine.Chooser, cf brConfig, lwe, br rlwe.Parameters, skLWE, skBR
 		}
 	}
 	keys := lib.BlindRotationKeys
-	levelQ, levelP := br.MaxLevelQ(), br.MaxLevelP()
+	levelQ, levelP := cf.keyLevelQ(br), br.MaxLevelP()
 	if src == "harness" {
 		keys = make([]*rgsw.Ciphertext, lwe.N())
 		for i := range keys {
@@ -329,6 +382,22 @@ func brKeys(c *engine.Chooser, cf brConfig, lwe, br rlwe.Parameters, skLWE, skBR
 		}
 	}
 	return newRecKeySet(keys, lib.AutomorphismKeys), src
+}
+
+// evaluate calls Evaluate and turns a panic into a violation. One panic is classified on its own: an LWE sample
+// with more moduli than the blind-rotation ring (Evaluate uses its accumulator, shaped like a blind-rotation
+// ciphertext, as scratch space for the sample's polynomials).
+func evaluate(c *engine.Chooser, cf brConfig, name string, eval *blindrot.Evaluator, ct *rlwe.Ciphertext, tpm map[int]*ring.Poly, ks blindrot.BlindRotationEvaluationKeySet, br rlwe.Parameters) (res map[int]*rlwe.Ciphertext, err error, stop bool) {
+	_, pan := uni.Try(func() error { res, err = eval.Evaluate(ct, tpm, ks); return nil })
+	if pan == nil {
+		return res, err, false
+	}
+	if ct.Level() > br.MaxLevel() {
+		c.Fail("C20/blindrot/Evaluate/panic/LWE-sample-with-more-moduli-than-the-BR-ring", "%s: LWE ciphertext at level %d, blind-rotation ring with %d moduli: %v", name, ct.Level(), br.MaxLevel()+1, pan)
+	} else {
+		c.Fail("C20/blindrot/Evaluate/panic", "%s: %v", name, pan)
+	}
+	return nil, nil, true
 }
 
 func brScenario(cf brConfig) engine.Scenario {
@@ -352,7 +421,8 @@ func brScenario(cf brConfig) engine.Scenario {
 		c.Cover("brk-source", src+"/"+cf.v.name)
 
 		// scale: the largest power of two with max|f|·scale ≤ Q/8
-		QBR := uni.QAtLevel(br, br.MaxLevel())
+		kl := cf.keyLevelQ(br) // Evaluate works at the level of the keys; results are read there
+		QBR := uni.QAtLevel(br, kl)
 		maxF := 1.0
 		for _, f := range brFuncs {
 			maxF = math.Max(maxF, f.max(cf.a, cf.b))
@@ -367,7 +437,7 @@ func brScenario(cf brConfig) engine.Scenario {
 		fns := make([]func(float64) float64, len(brFuncs))
 		for fi, f := range brFuncs {
 			fns[fi] = f.mk(cf.a, cf.b, nBR)
-			polys[fi] = blindrot.InitTestPolynomial(fns[fi], rlwe.NewScale(scaleF), br.RingQ(), cf.a, cf.b)
+			polys[fi] = blindrot.InitTestPolynomial(fns[fi], rlwe.NewScale(scaleF), br.RingQ().AtLevel(kl), cf.a, cf.b)
 			luts[fi] = make([]*big.Int, twoN)
 			for k := 0; k < twoN; k++ {
 				luts[fi][k] = roundScaled(lut(fns[fi], k, nBR, cf.a, cf.b), scaleBig)
@@ -386,28 +456,31 @@ func brScenario(cf brConfig) engine.Scenario {
 
 		eval := blindrot.NewEvaluator(br, lwe)
 		enc := rlwe.NewEncryptor(lwe, skLWE)
-		qLWE := lwe.Q()[0]
+		lvl := cf.v.lweLevel
+		qLWE := uni.QAtLevel(lwe, lvl).Uint64() // < 2^33 in every variant
 		evals := 0
 		unique, ambiguous, vacuous := 0, 0, 0
 		for ci, call := range leaf.calls {
 			// LWE plaintext: slot i holds round(k_i·Q/2N)
-			pt := rlwe.NewPlaintext(lwe, 0)
+			pt := rlwe.NewPlaintext(lwe, lvl)
 			for i, k := range call.k {
 				v := new(big.Int).Mul(big.NewInt(int64(k)), new(big.Int).SetUint64(qLWE))
 				v = ref.RoundDivHalfUp(v, big.NewInt(int64(twoN)))
-				pt.Value.Coeffs[0][i] = ref.ModU(v, qLWE)
+				for j, qj := range lwe.Q()[:lvl+1] {
+					pt.Value.Coeffs[j][i] = ref.ModU(v, qj)
+				}
 			}
 			if pt.IsNTT {
-				lwe.RingQ().NTT(pt.Value, pt.Value)
+				lwe.RingQ().AtLevel(lvl).NTT(pt.Value, pt.Value)
 			}
-			ct := rlwe.NewCiphertext(lwe, 1, 0)
+			ct := rlwe.NewCiphertext(lwe, 1, lvl)
 			if err := enc.Encrypt(pt, ct); err != nil {
 				panic(err)
 			}
 			ctBefore := ct.CopyNew()
 			phLWE := uni.Phase(lwe, &ct.Element, skLWE)
-			c0 := polyU64(uni.PolyCoeffs(lwe.RingQ(), ct.Value[0], 0, ct.IsNTT, false))
-			c1 := polyU64(uni.PolyCoeffs(lwe.RingQ(), ct.Value[1], 0, ct.IsNTT, false))
+			c0 := polyU64(uni.PolyCoeffs(lwe.RingQ(), ct.Value[0], lvl, ct.IsNTT, false))
+			c1 := polyU64(uni.PolyCoeffs(lwe.RingQ(), ct.Value[1], lvl, ct.IsNTT, false))
 
 			tpm := map[int]*ring.Poly{}
 			fnOf := map[int]int{}
@@ -418,7 +491,10 @@ func brScenario(cf brConfig) engine.Scenario {
 			}
 			segStart := len(rec.segments)
 			rec.beginCall()
-			res, err := eval.Evaluate(ct, tpm, rec)
+			res, err, stop := evaluate(c, cf, name, eval, ct, tpm, rec, br)
+			if stop {
+				return
+			}
 			if len(rec.missing) > 0 {
 				c.Fail("C20/blindrot/keys/requested-key-not-generated", "%s %s call %d: the evaluator asked for %v, which GenEvaluationKeyNew did not generate", name, leaf.name, ci, rec.missing)
 				return
@@ -433,6 +509,20 @@ func brScenario(cf brConfig) engine.Scenario {
 			if len(res) != len(call.slots) {
 				c.Fail("C20/blindrot/Evaluate/result-slots", "%s %s call %d: %d results for %d requested slots", name, leaf.name, ci, len(res), len(call.slots))
 				return
+			}
+			if leaf.name == "subsets" {
+				// the evaluator above has served every previous call of this leaf; a fresh one must return the same bits
+				res2, err2 := blindrot.NewEvaluator(br, lwe).Evaluate(ct, tpm, newRecKeySet(rec.brk, rec.gkList))
+				same := err2 == nil && len(res2) == len(res)
+				for sl, r := range res {
+					if same && (res2[sl] == nil || !r.Equal(res2[sl])) {
+						same = false
+					}
+				}
+				if !same {
+					c.Fail("C20/blindrot/history/"+cf.v.name, "%s call %d (slots %v): an evaluator reused across Evaluate calls and a fresh one return different ciphertexts (err %v)", name, ci, call.slots, err2)
+				}
+				c.Cover("br-history", "reused-vs-fresh")
 			}
 			slots := append([]int{}, call.slots...)
 			sort.Ints(slots) // the evaluator walks the slots in increasing order: segment t belongs to slots[t]
@@ -465,7 +555,7 @@ func brScenario(cf brConfig) engine.Scenario {
 				if r.IsNTT != br.NTTFlag() {
 					c.Fail("C20/blindrot/Evaluate/result-domain", "%s: result IsNTT=%v with NTTFlag=%v", name, r.IsNTT, br.NTTFlag())
 				}
-				R := phaseSmall(br, &r.Element, sBR)
+				R := phaseSmall(br, truncated(&r.Element, kl), sBR)
 
 				// (B1) the result is a rotation of the test polynomial: R[j] ≈ scale·lut(k*−j) for all j
 				var matches []int
@@ -652,35 +742,57 @@ func rotationMatches(R []*big.Int, lut []*big.Int, k int, tol *big.Int) bool {
 
 func brScenarios(tier string) []engine.Scenario {
 	var scs []engine.Scenario
-	pairs := [][2]int{{4, 5}, {4, 6}, {5, 7}}
-	variants := brVariants
-	if tier == "thorough" {
-		pairs = append(pairs, [2]int{5, 5}) // equal ring degrees
-		// the same four paths with the NTT flags of both parameter sets flipped, and a digit-decomposed single-P key
-		for _, v := range brVariants {
-			w := v
-			w.name, w.nttBR, w.nttLWE = v.name+"-flip", !v.nttBR, !v.nttLWE
-			variants = append(variants, w)
-		}
-		w := brVariants[0]
-		w.name, w.pw2 = "singleP-pw2=16", 16
+	pairs := [][2]int{{4, 4}, {4, 5}, {4, 6}, {5, 5}, {5, 7}}
+	variants := append(append([]brVariant{}, brVariants...), brDeepVariants...)
+	nBase := len(brVariants)
+	// the four paths with the NTT flags of both parameter sets flipped, and a digit-decomposed single-P key
+	for _, v := range brVariants {
+		w := v
+		w.name, w.nttBR, w.nttLWE = v.name+"-flip", !v.nttBR, !v.nttLWE
 		variants = append(variants, w)
 	}
+	w := brVariants[0]
+	w.name, w.pw2 = "singleP-pw2=16", 16
+	variants = append(variants, w)
+	thorough := tier == "thorough"
 	for _, pr := range pairs {
 		n := 1 << pr[0]
-		for _, v := range variants {
-			base := v.name
-			if i := len("32bit"); len(base) >= i && base[:i] == "32bit" && pr[1] > 6 {
+		small := pr[1] <= 5 // N_BR ≤ 32: cheap
+		for vi, v := range variants {
+			extra := vi >= nBase // deep / flipped / digit variants
+			if len(v.name) >= 5 && v.name[:5] == "32bit" && pr[1] > 6 {
 				continue // q < 2^29 leaves no room for the worst-case noise of 32 products at N=128: nothing could be judged
 			}
-			for _, h := range []int{1, 2, n / 4, n / 2} {
+			if !thorough && extra && !(pr == [2]int{4, 5} || (pr == [2]int{5, 5} && vi < nBase+len(brDeepVariants))) {
+				continue // quick: the extra variants on the smallest unequal pair; the level variants also on the equal pair
+			}
+			hs := []int{1, 2, n / 4, n / 2}
+			if v.name == "singleP-lwe2@1" {
+				// known to panic (sample with more moduli than the BR ring): one scenario, kept apart
+				if pr == [2]int{4, 5} {
+					leaves := brLeaves(n, 1<<pr[1])
+					scs = append(scs, brScenario(brConfig{pr[0], pr[1], v, 1, -1, 1, len(leaves) - 1}))
+				}
+				continue
+			}
+			for _, h := range hs {
+				if !thorough && (extra || pr[1] == 7 || pr[0] == pr[1]) && (h == 2 || h == n/4) {
+					continue // quick: extreme weights only for the extra variants, the largest pair and the equal pairs
+				}
 				leaves := brLeaves(n, 1<<pr[1])
 				scs = append(scs, brKeyScenario(brConfig{pr[0], pr[1], v, h, -1, 1, 0}))
-				for _, iv := range [][2]float64{{-1, 1}, {-4, 4}} {
-					if tier != "thorough" && pr[1] == 7 && (h == 2 || h == n/4) {
-						continue // quick: the largest ring pair with the extreme weights only
+				if h == 1 || h == n/2 {
+					scs = append(scs, brGrowScenario(brConfig{pr[0], pr[1], v, h, -1, 1, 0}))
+				}
+				ivs := [][2]float64{{-1, 1}, {-4, 4}, {-1, 3}, {0, 2}}
+				for ii, iv := range ivs {
+					if !thorough && (ii == 3 || (ii >= 1 && (extra || pr[0] == pr[1])) || (ii == 2 && !small)) {
+						continue // quick: [0,2] never; extra variants and equal pairs on [-1,1] only; [-1,3] on small rings
 					}
 					for li := range leaves {
+						if !thorough && ii == 2 && li != 0 && li != len(leaves)-1 {
+							continue // quick: asymmetric interval with one full pass and the subsets
+						}
 						scs = append(scs, brScenario(brConfig{pr[0], pr[1], v, h, iv[0], iv[1], li}))
 					}
 				}
@@ -702,7 +814,7 @@ func brKeyScenario(cf brConfig) engine.Scenario {
 		skBR := rlwe.NewKeyGenerator(br).GenSecretKeyNew()
 		sLWE, _ := secretInts(lwe, skLWE)
 		sBR, _ := secretInts(br, skBR)
-		evkParams := rlwe.EvaluationKeyParameters{BaseTwoDecomposition: utils.Pointy(cf.v.pw2)}
+		evkParams := cf.evkParams()
 		keys := blindrot.GenEvaluationKeyNew(br, skBR, lwe, skLWE, evkParams)
 		if len(keys.BlindRotationKeys) != lwe.N() {
 			c.Fail("C20/blindrot/GenEvaluationKeyNew/rgsw-key-count", "%s: %d RGSW keys for %d secret coefficients", name, len(keys.BlindRotationKeys), lwe.N())
@@ -710,7 +822,7 @@ func brKeyScenario(cf brConfig) engine.Scenario {
 		}
 		Be := big.NewInt(int64(br.NoiseBound()))
 		for i, k := range keys.BlindRotationKeys {
-			if k.LevelQ() != br.MaxLevelQ() || k.LevelP() != br.MaxLevelP() || k.Value[0].BaseTwoDecomposition != cf.v.pw2 {
+			if k.LevelQ() != cf.keyLevelQ(br) || k.LevelP() != br.MaxLevelP() || k.Value[0].BaseTwoDecomposition != cf.v.pw2 {
 				c.Fail("C20/blindrot/GenEvaluationKeyNew/rgsw-key-shape", "%s: key %d at levels (%d,%d), base-two %d", name, i, k.LevelQ(), k.LevelP(), k.Value[0].BaseTwoDecomposition)
 				continue
 			}
@@ -743,5 +855,108 @@ func brKeyScenario(cf brConfig) engine.Scenario {
 		c.Count(lwe.N() + len(keys.AutomorphismKeys))
 		c.Cover("brkeys", cf.v.name)
 		c.Outcome(name, len(keys.AutomorphismKeys))
+	}}
+}
+
+// brGrowScenario: "the generated keys contain exactly the keys the algorithm requests", read from the other side, and
+// a key set that gains keys while an evaluator is alive.
+//  1. a reference run with every key records which Galois keys the first sample needs;
+//  2. a new evaluator gets a key set holding the RGSW keys and only those Galois keys (its list is truthful): the
+//     evaluation must succeed and return the same bits;
+//  3. the remaining Galois keys are added to that key set and a second sample is evaluated on the same evaluator: same
+//     bits as a fresh evaluator with the complete set.
+func brGrowScenario(cf brConfig) engine.Scenario {
+	name := fmt.Sprintf("brgrow/%s/NLWE=%d/NBR=%d/h=%d", cf.v.name, 1<<cf.logNLWE, 1<<cf.logNBR, cf.h)
+	return engine.Scenario{Name: name, Bound: -1, Fn: func(c *engine.Chooser) {
+		lwe, br := cf.params()
+		nLWE, nBR := lwe.N(), br.N()
+		which := c.Choose(3, "slots")
+		slotSets := [][]int{{0}, {1, nLWE - 1}, {2, nLWE / 2, nLWE - 3}}
+		slots := slotSets[which]
+		uni.Seed(c, name, which)
+		skLWE := rlwe.NewKeyGenerator(lwe).GenSecretKeyNew()
+		skBR := rlwe.NewKeyGenerator(br).GenSecretKeyNew()
+		sLWE, _ := secretInts(lwe, skLWE)
+		sBR, _ := secretInts(br, skBR)
+		full, src := brKeys(c, cf, lwe, br, skLWE, skBR, sLWE, sBR)
+		c.Cover("brk-source", src+"/"+cf.v.name)
+		kl := cf.keyLevelQ(br)
+		poly := blindrot.InitTestPolynomial(func(x float64) float64 { return x }, rlwe.NewScale(math.Ldexp(1, uni.QAtLevel(br, kl).BitLen()-5)), br.RingQ().AtLevel(kl), -1, 1)
+		tpm := map[int]*ring.Poly{}
+		for _, sl := range slots {
+			tpm[sl] = &poly
+		}
+		enc := rlwe.NewEncryptor(lwe, skLWE)
+		sample := func(shift int) *rlwe.Ciphertext {
+			lvl := cf.v.lweLevel
+			q := uni.QAtLevel(lwe, lvl)
+			pt := rlwe.NewPlaintext(lwe, lvl)
+			for i := 0; i < nLWE; i++ {
+				v := ref.RoundDivHalfUp(new(big.Int).Mul(big.NewInt(int64((i+shift)%nBR-nBR/2)), q), big.NewInt(int64(2*nBR)))
+				for j, qj := range lwe.Q()[:lvl+1] {
+					pt.Value.Coeffs[j][i] = ref.ModU(v, qj)
+				}
+			}
+			if pt.IsNTT {
+				lwe.RingQ().AtLevel(lvl).NTT(pt.Value, pt.Value)
+			}
+			ct := rlwe.NewCiphertext(lwe, 1, lvl)
+			if err := enc.Encrypt(pt, ct); err != nil {
+				panic(err)
+			}
+			return ct
+		}
+		equal := func(a, b map[int]*rlwe.Ciphertext) bool {
+			if len(a) != len(b) {
+				return false
+			}
+			for _, sl := range slots {
+				if a[sl] == nil || b[sl] == nil || !a[sl].Equal(b[sl]) {
+					return false
+				}
+			}
+			return true
+		}
+		ct1, ct2 := sample(0), sample(5)
+		ref1, err, stop := evaluate(c, cf, name, blindrot.NewEvaluator(br, lwe), ct1, tpm, full, br)
+		if stop {
+			return
+		}
+		if err != nil || len(full.missing) > 0 {
+			c.Fail("C20/blindrot/keys/requested-key-not-generated", "%s: reference run: %v %v", name, err, full.missing)
+			return
+		}
+		var needed []*rlwe.GaloisKey
+		var later []*rlwe.GaloisKey
+		for _, gk := range full.gkList {
+			if full.reqGal[gk.GaloisElement] > 0 {
+				needed = append(needed, gk)
+			} else {
+				later = append(later, gk)
+			}
+		}
+		growing := newRecKeySet(full.brk, needed)
+		eval := blindrot.NewEvaluator(br, lwe)
+		got1, err := eval.Evaluate(ct1, tpm, growing)
+		if err != nil || !equal(got1, ref1) {
+			c.Fail("C20/blindrot/keyset/minimal-set/"+cf.v.name, "%s slots %v: with exactly the %d Galois keys the reference run requested (of %d generated) the evaluation fails or differs: err=%v missing=%v",
+				name, slots, len(needed), len(full.gkList), err, growing.missing)
+			return
+		}
+		for _, gk := range later { // the key set gains keys after the evaluator has been used
+			growing.gks[gk.GaloisElement] = gk
+			growing.galList = append(growing.galList, gk.GaloisElement)
+			growing.gkList = append(growing.gkList, gk)
+		}
+		got2, err2 := eval.Evaluate(ct2, tpm, growing)
+		ref2, err3 := blindrot.NewEvaluator(br, lwe).Evaluate(ct2, tpm, newRecKeySet(full.brk, full.gkList))
+		if err2 != nil || err3 != nil || !equal(got2, ref2) {
+			c.Fail("C20/blindrot/keyset/grown-set/"+cf.v.name, "%s slots %v: after %d Galois keys were added to the key set of a used evaluator the evaluation fails or differs from a fresh evaluator: err=%v/%v missing=%v",
+				name, slots, len(later), err2, err3, growing.missing)
+		}
+		c.Count(4 * len(slots))
+		c.Cover("brgrow", cf.v.name)
+		c.Outcome(name, len(needed), len(later))
+		c.Note("slots %v: %d Galois keys needed by the first sample, %d added later", slots, len(needed), len(later))
 	}}
 }
